@@ -222,8 +222,19 @@ def run_pipeline(pid, spec, hbin, cases_path, workdir):
                            timeout=spec.get("run_timeout", 3000), text=True)
     if p.returncode != 0:
         return impl_path, [], None, "harness run failed rc=%d: %s" % (p.returncode, (p.stderr or "")[-2000:])
+    def _big_stack():
+        # extracted Gallina recursion (firstn, map, ...) is not tail recursive: very long lists need a deep stack
+        import resource
+        try:
+            resource.setrlimit(resource.RLIMIT_STACK, (resource.RLIM_INFINITY, resource.RLIM_INFINITY))
+        except Exception:
+            try:
+                soft, hard = resource.getrlimit(resource.RLIMIT_STACK)
+                resource.setrlimit(resource.RLIMIT_STACK, (hard, hard))
+            except Exception:
+                pass
     with open(impl_path) as fin, open(mm_path, "w") as fout:
-        p = subprocess.run([os.path.join(BUILD, "modelrun_" + spec.get("model", pid))] + spec.get("model_args", []),
+        p = subprocess.run([os.path.join(BUILD, "modelrun_" + spec.get("model", pid))] + spec.get("model_args", []), preexec_fn=_big_stack,
                            stdin=fin, stdout=fout, stderr=subprocess.PIPE, timeout=spec.get("run_timeout", 3000), text=True)
     if p.returncode != 0:
         return impl_path, [], None, "modelrun failed rc=%d: %s" % (p.returncode, (p.stderr or "")[-2000:])
